@@ -1037,3 +1037,8 @@ end
     )?;
     Ok(())
 }
+
+#[cfg(feature = "verif")]
+pub fn verif_make_string_constant(s: &str) -> String {
+    make_string_constant(s)
+}
